@@ -1,0 +1,10 @@
+//go:build !verif
+
+package fstxn
+
+// Verification hooks (see /verif/DESIGN.md, Section 6).  With the build tag
+// "verif" off these are empty and the server behaves exactly as before.
+
+func verifEvent(kind string, op *FsTxn, arg uint64) {}
+
+func verifBool(b bool) uint64 { return 0 }
